@@ -20,7 +20,9 @@ static void fired(const char *kind) { World *w = world(); w->flt_fired[kind]++; 
 static int lie_status_for_stage() {
 	auto v = stage_faults("flt.status"); if (v.empty()) return 0;
 	static const int st[] = {QS_LP_OPTIMAL, QS_LP_INFEASIBLE, QS_LP_UNBOUNDED, QS_LP_ITER_LIMIT, QS_LP_TIME_LIMIT, QS_LP_UNSOLVED, QS_LP_NUMERR};
-	long t = fi(*v[0], "to", 0); long n = t % 7; if (n < 0) n += 7; return st[n];
+	long t = fi(*v[0], "to", 0); long n = t % 7; if (n < 0) n += 7;
+	if (fi(*v[0], "alt", 0)) n = (n + (world()->stage - 1)) % 2;   // alternating claims: OPTIMAL at one precision, INFEASIBLE at the next
+	return st[n];
 }
 
 // ------------------------------------------------------------------ C16: reduced precision copies
